@@ -29,13 +29,6 @@ func clip(b []byte) []byte {
 	return c[:len(c):len(c)]
 }
 
-func atoiU(s string, bits int) uint64 {
-	v, err := strconv.ParseUint(s, 10, bits)
-	if err != nil {
-		panic("harness: bad integer token " + s)
-	}
-	return v
-}
 func utoa(v uint64) string { return strconv.FormatUint(v, 10) }
 
 // a wire type of C06: how to build a receiver from value tokens, marshal it, unmarshal into a
